@@ -14,3 +14,5 @@ def run(prog, rep):
     r_pair.run_dispatch(prog, rep)
     r_pair.run_match_tables(prog, rep)
     r_pair.run_match_range(prog, rep)
+    from ..rules import r_flow
+    r_flow.run_forward(prog, rep, which=(), mode='PositionMatch', rid='R-FORWARD-PM', floor=10)
